@@ -208,3 +208,70 @@ func allCalls(fn *ssa.Function) []ssa.CallInstruction {
 	}
 	return out
 }
+
+// reachesTargetOnSuccess: every success return (nil error) of g is behind a call of the function
+// named target — dominated by such a call, or returning the result of one directly — where the
+// call may also be to a module function of which the same holds (bounded depth). Used so that a
+// rule anchored at "f calls target" also accepts "f calls a helper that calls target".
+func (c *Ctx) reachesTargetOnSuccess(g *ssa.Function, target string, depth int) bool {
+	if g == nil || len(g.Blocks) == 0 || depth > 3 {
+		return false
+	}
+	qualifies := func(ci ssa.CallInstruction) bool {
+		f := ci.Common().StaticCallee()
+		if f == nil || fnPkgPath(f) != modPath {
+			return false
+		}
+		return f.Name() == target || c.reachesTargetOnSuccess(f, target, depth+1)
+	}
+	var calls []ssa.CallInstruction
+	for _, ci := range allCalls(g) {
+		if _, isDefer := ci.(*ssa.Defer); isDefer {
+			continue
+		}
+		if qualifies(ci) {
+			calls = append(calls, ci)
+		}
+	}
+	if len(calls) == 0 {
+		return false
+	}
+	n := 0
+	for _, ret := range c.successReturns(g) {
+		n++
+		ok := false
+		if len(ret.Results) > 0 {
+			if call, isCall := resolveSpill(ret.Results[len(ret.Results)-1]).(*ssa.Call); isCall {
+				for _, ci := range calls {
+					if ci == ssa.CallInstruction(call) {
+						ok = true
+					}
+				}
+			}
+		}
+		for _, ci := range calls {
+			if instrDominates(ci, ret) {
+				ok = true
+			}
+		}
+		if !ok {
+			return false
+		}
+	}
+	return n > 0
+}
+
+// callsVia: the call instructions in fn that call target or a module function that reaches target on success.
+func (c *Ctx) callsVia(fn *ssa.Function, target string) []ssa.CallInstruction {
+	var out []ssa.CallInstruction
+	for _, ci := range allCalls(fn) {
+		f := ci.Common().StaticCallee()
+		if f == nil || fnPkgPath(f) != modPath {
+			continue
+		}
+		if f.Name() == target || c.reachesTargetOnSuccess(f, target, 1) {
+			out = append(out, ci)
+		}
+	}
+	return out
+}
